@@ -50,6 +50,8 @@ type c13Case struct {
 	Procs    int   `json:"gomaxprocs"`
 	FailSend int   `json:"fail_send_at_write,omitempty"` // 0 = none; k>0: the k-th conn write reports an error although the bytes left
 	BreakAt  int   `json:"break_conn_at_write,omitempty"`
+	// Unordered: a datagram-mode session (one frame per write); numbering rules are the same
+	Unordered bool `json:"unordered,omitempty"`
 }
 
 func c13Tag(stream, writer int) uint64 { return 0xC13<<40 | uint64(stream)<<16 | uint64(writer) }
@@ -66,7 +68,7 @@ func c13Run(t *testing.T, r *vk.Reporter, id string, c *c13Case) (kind, detail s
 		}
 		obf, _ := MakeObfuscator(c.Method, key)
 		ref, _ := vk.NewRefCodec(c.Method, key)
-		sesh := MakeSession(3, SessionConfig{Obfuscator: obf, MsgOnWireSizeLimit: rigLimit, InactivityTimeout: 100 * time.Hour})
+		sesh := MakeSession(3, SessionConfig{Obfuscator: obf, MsgOnWireSizeLimit: rigLimit, InactivityTimeout: 100 * time.Hour, Unordered: c.Unordered})
 		net := vk.NewNet()
 		var pipes []*vk.Pipe
 		for i := 0; i < c.NumConn; i++ {
@@ -448,6 +450,10 @@ func TestVerif_C13(t *testing.T) {
 		}
 		if c.Writers == 1 && rng.IntN(2) == 0 {
 			c.Sizes = []int{1, 2, 3, rigMax + 1}
+		}
+		if i%6 == 5 {
+			c.Unordered = true
+			c.Sizes = [][]int{{8, 9, 64}, {1000, rigMax - 1}, {16, 17}, {rigMax, 100}}[(i/6)%4]
 		}
 		switch i % 5 {
 		case 3:
